@@ -5,6 +5,9 @@ CHECKS = {
  "C01": dict(design="5/C01", technique="TLA+ IRMachine+Accfg spec; TLC runs dedup input/output images from the real pass for all oracles (translation validation by model checking)",
    text="TLC executes the image of each program before and after the real accfg-dedup on the SNAX abstract machine (spec/IRMachine.tla, Accfg.tla) for every run-time input in the case's domain (all trip counts 0..3, both branch outcomes, opaque results) and judges contract AccfgObs (spec/Contracts.tla): same launch/await/opaque events, every field the original had written holds the same value at every launch, no use-before-def. Programs: repository accfg corpus + witnesses + generated programs of the lowering's form.",
    note="Bounded: generated programs (depth<=3, <=6 invocations) and the stated oracle domains; semantics of setup/launch/effects as in spec/Accfg.tla; xshim import shim."),
+ "C04": dict(design="5/C04", technique="TLA+ IRMachine+Csr spec; TLC runs accfg image and the real CSR/RoCC lowering's image for all oracles and matches the CSR log against the declared register maps (MatchCsr)",
+   text="TLC executes each accfg program (after the real trace/dedup/overlap) and its real convert-accfg-to-csr output; the lowered run's log of csrw/csrr/.insn events must be exactly what spec/Csr.tla derives from the source run's setup/launch/await events and the register maps declared in the program's accfg.accelerator ops (one write per field in listed order to the declared address, launch writes, >=1 poll of the declared barrier + HWPE clear write, RoCC instruction sets with the values in effect); NoStateLeft on the output image. Polling loops are executed (scf.while) with busy/idle status answers from the oracle.",
+   note="Program part over the 4 registered accelerators; register-map injectivity over configurations is checked with C08's enumeration (map part). RoCC programs are straight-line (known finding: partner recovery across control flow)."),
  "C06": dict(design="5/C06", technique="TLA+ IRMachine+Accfg spec; TLC runs overlap input/output images from the real pass for all oracles",
    text="Same machine and contract as C01 applied to (accfg-dedup output, real accfg-config-overlap output); definedness is tracked per dynamic scope so a moved computation that reads a value not yet available in its iteration is a UseBeforeDef fault. Known finding: loop rotation clobbers fields that dedup'ed later setups rely on (witness known/C06); generator emits at most one setup per accelerator per outermost loop nest to stay outside that class.",
    note="Bounded as C01; carve-out of the known-finding class documented in known_findings.json."),
